@@ -17,6 +17,8 @@ for d in sorted(glob.glob(os.path.join(ROOT, "seeded", "C*-*"))):
         p = subprocess.run(["patch", "-p1", "-s", "-i", os.path.join(d, "patch.diff")], cwd=tmp, capture_output=True, text=True)
         if p.returncode != 0:
             results[sid] = {"property": prop, "status": "patch-does-not-apply-to-current-tree", "detail": (p.stdout + p.stderr)[-300:]}
+            json.dump(results, open(res_path, "w"), indent=1, sort_keys=True)
+            print(sid, "patch-does-not-apply-to-current-tree (port it by hand, keep patch.original.diff)")
             continue
         env = dict(os.environ, PYVC_REPO=tmp)
         r = subprocess.run([os.path.join(ROOT, "check"), prop], cwd=ROOT, env=env, capture_output=True, text=True, timeout=3000)
